@@ -17,7 +17,7 @@ def registry():
     import codec_checks
     for p in codec_checks.PLAN:
         reg[p] = codec_checks.check
-    for modname in ("session_checks", "framing_checks", "sendpath_checks", "lifecycle_checks",
+    for modname in ("session_checks", "dispatch_checks", "framing_checks", "sendpath_checks", "lifecycle_checks",
                     "race_checks", "generator_checks"):
         try:
             mod = __import__(modname)
